@@ -505,6 +505,15 @@ func makeMutant(r *rand.Rand, d dayRef, days []dayRef) (*mutant, error) {
 			m.desc = fmt.Sprintf("%s forge .blockmeta version -> %d", tag, v)
 		case 1:
 			v := []uint64{0, uint64(lay.n - 1), uint64(lay.n + 1), uint64(2 * lay.n), 1 << 31, 1 << 40, ^uint64(0)}[r.Intn(7)]
+			switch r.Intn(3) {
+			case 0: // single bit flip anywhere in the 64-bit counter (a plausible count with a high bit set)
+				v = uint64(lay.n) ^ (1 << uint(r.Intn(64)))
+			case 1: // counts that wrap size computations (n*perBlock, n*8, n*16 ...) around 2^64
+				v = uint64(lay.n) + uint64(1+r.Intn(7))<<61
+				if r.Intn(2) == 0 {
+					v = (^uint64(0))/uint64([]int{8, 16, 24, 88, 96}[r.Intn(5)]) + uint64(r.Intn(3))
+				}
+			}
 			if int(v) == lay.n {
 				return nil, fw.ErrSkip
 			}
